@@ -103,10 +103,15 @@ func c09(c *ctx) {
 				forms := 1
 				if v == "garbage" {
 					forms = len(garbageVersions)
+				} else if fs, ok := versionForms[v]; ok && m == "GET" {
+					forms = len(fs)
 				}
 				for vf := 0; vf < forms; vf++ {
 					q.VerForm = vf
 					for _, api := range []string{"Upgrader", "HTTPUpgrader", "Upgrade", "UpgradeHTTP"} {
+						if v != "garbage" && vf > 0 && (api == "HTTPUpgrader" || api == "UpgradeHTTP") {
+							continue // net/http knows HTTP/x.y with single digits only and answers the others itself
+						}
 						cf := plain
 						cf.ExtraHeader = api == "Upgrader" || api == "HTTPUpgrader"
 						emit(fmt.Sprintf("line/%s/%s/%s/%s/%d", api, m, v, broken, vf), api, q, cf)
